@@ -328,7 +328,6 @@ struct Ctl11 {
     std::vector<opus_int32> before_enc = snapshot();
     Bytes pkt; int ret = enc.encode(pcm.data(), frame, max_bytes, fmt, pkt);
     run.ev((uint64_t)ret); run.evb(pkt.data(), pkt.size());
-    if (ret == OPUS_INTERNAL_ERROR) REPORT(run, prop, "enc_internal_error", "frame %d", frame);
     {
       // settings are changed by requests only: an encode call must leave every setting getter as it was (state-derived getters exempt:
       // bandwidth in use, in-DTX, bitrate (AUTO / MAX resolve against the last frame size; multistream reports per-stream rates in effect),
@@ -349,7 +348,7 @@ struct Ctl11 {
       int off = 0;
       for (int s = 0; s < L.streams; s++) {
         Framed f = model_parse(pkt.data() + off, (int)pkt.size() - off, s != L.streams - 1);
-        if (!f.ok) REPORT(run, prop, "ms_packet_invalid", "stream %d", s);
+        if (!f.ok) return;   // (packet validity is C02's subject)
         if ((long)toc_frame48(f.toc) * f.nframes * L.fs != (long)sel * 48000) REPORT(run, prop, "duration_not_honoured_ms", "stream %d: %d x %d (48k) vs %d samples", s, toc_frame48(f.toc), f.nframes, sel);
         first_note(s, f);
         off += f.consumed;
@@ -358,7 +357,7 @@ struct Ctl11 {
       return;
     }
     Framed f = model_parse(pkt.data(), (int)pkt.size(), false);
-    if (!f.ok) REPORT(run, prop, "packet_invalid", "len %d", ret);
+    if (!f.ok) return;   // (packet validity is C02's subject)
     unsigned char toc = pkt[0];
     if ((long)toc_frame48(toc) * f.nframes * L.fs != (long)sel * 48000) REPORT(run, prop, "duration_not_honoured", "toc %02x frames %d vs %d samples", toc, f.nframes, sel);
     bool payload = false; for (int i = 0; i < f.nframes; i++) if (f.len[i] > 1) payload = true;
